@@ -217,7 +217,7 @@ def run(ctx):
         "samples": samples, "traces_validated_against_impl": len(ssa_res) + len(q_res), "histograms": hist, "part_b_printer_roundtrip": partb,
         "partial": ["rename_preserves_resolution (general) is for modules accepted by scope analysis; rename_preserves_resolution_partial (name bound once) also covers rejected modules",
                     "rename theorems are stated on the event view and, via rename_tree_commutes / rename_member_commutes, on the trees of Model/Scope.lean; position search (location_cover.rs) and the printed text are reached by the q / rn protocols"],
-        "pending": ["renaming commutes with the formatter's regrouping (regroup ∘ relabel = relabel ∘ regroup) on C08's model"]})
+        "pending": ["position search (location_cover.rs) and printer layout are protocol-only; part b holds on C08's expression model, not on the text"]})
     ctx.assumptions += ["new name is fresh and not a keyword (the property's precondition); rewrite::rename itself only checks lexical shape (fresh_check_unsound_counterexample)",
                         "single-module ServerState"]
     return ctx.finish(res, trusted=common.TRUSTED_COMMON + [
